@@ -160,6 +160,7 @@ func (g *gen) newCase() *wc.Case {
 	}
 	c.Skip = g.pick(allDirs, 2)
 	c.ABS = r.Intn(3) == 0
+	c.SAP = c.ABS && nroots == 1 && r.Intn(2) == 0
 	if r.Intn(4) == 0 {
 		c.HasRx, c.RxSrc = true, rxPool[r.Intn(len(rxPool))]
 	}
